@@ -98,11 +98,13 @@ func (f LeveldbDiskStorage) SetTableMeta(tbl *btapb.Table) {
 		f.errLog(err, "ioutil.WriteFile %q", tmpPath)
 		return
 	}
+	verifCrashPoint("meta.tmp-written")
 
 	if err := os.Rename(tmpPath, outPath); err != nil {
 		f.errLog(err, "os.Rename %q -> %q", tmpPath, outPath)
 		return
 	}
+	verifCrashPoint("meta.renamed")
 }
 
 func (f LeveldbDiskStorage) errLog(err error, format string, args ...interface{}) {
@@ -116,6 +118,7 @@ var _ Storage = LeveldbDiskStorage{}
 func newDiskDb(path string, nuke bool) *leveldb.DB {
 	if nuke {
 		_ = os.RemoveAll(path)
+		verifCrashPoint("db.removed")
 	}
 
 	db, err := leveldb.OpenFile(path, &opt.Options{
